@@ -160,6 +160,9 @@ def flat(t: T):
 def run(ctx) -> Report:
     rep = Report("C08")
     prog = ctx.prog
+    # the memo-key clause first: it needs no interpretation, and what it finds is reported even if a later clause cannot follow the code
+    from ..memokey import check_memo_keys, memo_rule  # noqa: F401
+    memo_rule(ctx, rep, "C08-key", ['ufl.algorithms.apply_function_pullbacks', 'ufl.pullback'])
     m = prog.module(MOD)
     dims = [(2, 2), (3, 3), (3, 2), (2, 1), (3, 1)]
     blocks = [(), (2,)] + ([(2, 2), (3,)] if ctx.thorough() else [])
@@ -503,5 +506,4 @@ def run(ctx) -> Report:
     ]
     from ..memokey import memo_rule
 
-    memo_rule(ctx, rep, "C08-key", ['ufl.algorithms.apply_function_pullbacks', 'ufl.pullback'])
     return rep
